@@ -14,17 +14,30 @@ T2: random revision DAGs (merges, several roots, ghost parents, left-hand
     merged, unrelated and ghost revisions), keep_tags, bound master (in or out
     of step, own tags) and local flag; real `uncommit(branch, tree=wt,
     revno=…)` is run and (exception class | tip, revno, tags of branch and
-    master, tree.get_parent_ids()) compared with the Lean model `uncommit`.
+    master, tree.get_parent_ids()) compared with the Lean model `uncommit`;
+    about 1 case in 6 is run as `uncommit(branch, tree=None, …)` (model
+    `uncommitNoTree`: nothing is re-recorded, tags judged against the new tip
+    alone, tree parents untouched) and 1 in 8 with `dry_run=True` (model
+    `uncommitDry`: same exceptions, state unchanged).
     Commit/uncommit inverse: in random states (pending merges, edited / added
-    files, standalone and bound) `wt.commit()` followed by `uncommit()` is
-    compared with the model's `commit` then `uncommit 1`.
+    files and 0..4 further tree operations: rename, move, directory rename,
+    removal, remove --keep, mkdir + add, symlink->file and file->directory
+    kind changes, chmod, name swap; standalone, bound, and bound with
+    commit --local / uncommit --local and the master anywhere) `wt.commit()`
+    followed by `uncommit()` is compared with the model's `commit` /
+    `commitLocal` then `uncommit 1`.
     The graph answers the code relies on (vcsgraph find_unique_ancestors,
     heads of several keys, the tree's parent filtering) are compared with the
     Lean graph functions per case.
 Oracle (Python reference of the DAG, independent of the Lean model): after
     commit + uncommit: last_revision_info, tree parent ids, master state, tags,
-    file contents and the tree's reported changes are what they were before
-    the commit; after uncommit of d revisions: the tip is the d-th left-hand
+    every path below the tree root (kind, content / link target, executable
+    bit) and the tree's reported changes (iter_changes: both paths, names,
+    kinds, versioned, executable, changed_content) are what they were before
+    the commit; with tree=None the tree's parents are untouched and tags go
+    iff their revision is no ancestor of the new tip; a dry run changes
+    nothing; the MASTER's own tags go iff their revision left the history
+    (unconditionally checked); after uncommit of d revisions: the tip is the d-th left-hand
     ancestor, revno = old - d, the tree's first parent is the branch tip, the
     pending merges are the removed merges (each once, older revision first)
     followed by the previous pending merges, minus those the tree filters as
@@ -40,7 +53,20 @@ repaired behaviour, so either defect coming back is a plain VIOLATION.  One is
 reported with the family slug `local-uncommit-deletes-master-tags`
 (uncommit(local=True) deletes the tag in the master although the master keeps
 the revision; computed by the oracle from: bound, local, a master tag whose
-name was removed locally).
+name was removed locally).  A second family, `unsynced-master-tags-removed-by-name`
+(same root cause: BasicTags.delete_tag propagates by name): in a bound branch
+whose tag dict disagrees with the master's, a non-local uncommit deletes a
+master tag on a revision that stays (same name as a removed local tag) and
+keeps a master tag on a removed revision (no such name locally); classifier:
+bound, not local, master tags != the property's expectation but == removal by
+the locally removed names, and the two dicts differ.  Model and theorem
+`master_tags_after_uncommit` state the by-name behaviour literally.  A third,
+`missing-file-unversioned-by-commit` (oracle only; files are not modelled): a
+versioned file that is missing from disk is unversioned by the commit, so
+after commit+uncommit the tree reports it as removed-and-unversioned instead
+of missing; classifier: round trip with the `missing` tree operation, files
+identical, and the iter_changes lists identical except that the missing
+entries' versioned flags went (True, True) -> (True, False).
 
 Mutation self-test (scratch worktree, 16 DAGs, seed 0; judged on violations
 whose family is None and on model mismatches; all caught by the oracle with a
@@ -68,18 +94,24 @@ from checks import c21 as G
 
 RUST = ("cmd-py",)
 THEOREMS = [
-    "uncommit_commit_id", "uncommit_tip", "uncommit_revno_ok", "uncommit_pending",
-    "filterParents_head", "filterParents_sub", "filterParents_keeps_heads", "uncommit_tree_basis",
-    "tags_dropped_iff", "tags_after_uncommit", "tags_kept",
-    "tags_on_new_ancestry_survive", "local_uncommit_master_tags_witness",
+    "uncommit_commit_id", "uncommit_commit_id_local", "uncommit_tip", "lhNth_lefthand", "uncommit_tip_lefthand",
+    "uncommit_revno_ok", "uncommit_pending",
+    "filterParents_head", "filterParents_sub", "filterParents_keeps_heads", "removed_merge_head_kept",
+    "uncommit_tree_basis",
+    "tags_dropped_iff", "tags_after_uncommit", "tags_kept", "master_tags_after_uncommit",
+    "tags_on_new_ancestry_survive", "uncommit_no_tree", "no_tree_same_branch", "dry_run_unchanged",
+    "dry_run_same_errors", "local_uncommit_master_tags_witness",
 ]
-RULE = ("scenario = random DAG committed through a real 2a working tree; cases = every (tip T, depth d<=revno(T)) "
-        "with random pending merges, tags, keep_tags, bound master / local; plus commit+uncommit round trips in "
-        "random tree states; non-trivial = at least one removed revision is a merge, or there are pending "
-        "merges or tags, or the branch is bound; distinct by (graph, case)")
+RULE = ("scenario = random DAG committed through a real 2a working tree (files, a directory, an executable, a symlink); "
+        "cases = every (tip T, depth d<=revno(T)) with random pending merges, tags, keep_tags, bound master / local, "
+        "run with the tree, with tree=None or as a dry run; plus commit+uncommit round trips (plain and --local) in "
+        "random tree states with 0..4 pending tree operations (rename, move, directory rename, removal, remove --keep, "
+        "mkdir+add, kind changes, chmod, name swap) besides the edit / add; non-trivial = at least one removed revision "
+        "is a merge, or there are pending merges or tags, or the branch is bound; distinct by (graph, case)")
 ASSUMPTIONS = [
     "vcsgraph find_unique_ancestors / heads / iter_lefthand_ancestry answer as the Lean graph model specifies (compared per case)",
-    "the recorded revno of the branch is the number of revisions on its left-hand chain (the command refuses revno outside 1..revno)",
+    "the recorded revno of the branch is the number of revisions on its left-hand chain (the command refuses revno outside "
+    "1..revno; the model answers E:BadDepth for d > revno, such inputs are run on the real code only to record what the API does)",
     "file contents and the dirstate are not modelled: that uncommit leaves them alone is checked by the oracle on the real tree only",
 ]
 TRUSTED = ["hooks, locking and the commit machinery itself (C01) are not modelled; commit is modelled as: new revision with the tree's parents"]
@@ -157,9 +189,17 @@ class Scenario:
         self.dag = dag
         self.dir = env.fresh_dir("c16")
         self.wt = env.make_tree("2a", os.path.join(self.dir, "t"))
-        with open(os.path.join(self.wt.basedir, "f"), "w") as f:
+        base = self.wt.basedir
+        with open(os.path.join(base, "f"), "w") as f:
             f.write("base\n")
-        self.wt.add(["f"])
+        # files that the round trips rename / remove / chmod / change the kind of (the same in every revision)
+        os.mkdir(os.path.join(base, "sub"))
+        for name, text in (("keep", "keep\n"), ("sub/x", "x\n"), ("sub/y", "y\n"), ("tool", "#!/bin/sh\n")):
+            with open(os.path.join(base, name), "w") as f:
+                f.write(text)
+        os.chmod(os.path.join(base, "tool"), 0o755)
+        os.symlink("keep", os.path.join(base, "lnk"))
+        self.wt.add(["f", "keep", "sub", "sub/x", "sub/y", "tool", "lnk"])
         b = self.wt.branch
         for r in dag["order"]:
             ps = dag["parents"][r]
@@ -238,8 +278,8 @@ class Scenario:
         before = self.observe()
         err = None
         try:
-            uncommit(self.wt.branch, tree=self.wt, revno=self.revno(c["tip"]) - c["d"] + 1,
-                     keep_tags=c["keep"], local=c["local"])
+            uncommit(self.wt.branch, tree=None if c["f"] == "unt" else self.wt, dry_run=c["f"] == "und",
+                     revno=self.revno(c["tip"]) - c["d"] + 1, keep_tags=c["keep"], local=c["local"])
         except (KeyboardInterrupt, SystemExit):
             raise
         except BaseException as e:      # pyo3 PanicException derives from BaseException
@@ -261,8 +301,89 @@ class Scenario:
         after = self.observe()
         return dict(before=before, err=err, after=after)
 
+    def tree_ops(self, ops):
+        """pending changes of every kind made through the WorkingTree API before the commit"""
+        wt, base = self.wt, self.wt.basedir
+        done = []
+        for op in ops:
+            try:
+                if op == "rename":
+                    wt.rename_one("keep", "kept")
+                elif op == "move":
+                    wt.rename_one("tool", "sub/tool")
+                elif op == "rename-dir":
+                    wt.rename_one("sub", "dir2")
+                elif op == "remove":
+                    d = "dir2" if os.path.isdir(os.path.join(base, "dir2")) else "sub"
+                    wt.remove([d + "/y"], keep_files=False, force=True)
+                elif op == "remove-keep":
+                    wt.remove(["lnk"], keep_files=True)
+                elif op == "mkdir":
+                    os.mkdir(os.path.join(base, "nd"))
+                    with open(os.path.join(base, "nd", "n"), "w") as f:
+                        f.write("n\n")
+                    wt.add(["nd", "nd/n"])
+                elif op == "kind":
+                    p = os.path.join(base, "lnk")
+                    if os.path.islink(p):
+                        os.unlink(p)
+                        with open(p, "w") as f:
+                            f.write("was a link\n")
+                elif op == "kind-file-dir":
+                    d = "dir2" if os.path.isdir(os.path.join(base, "dir2")) else "sub"
+                    p = os.path.join(base, d, "x")
+                    if os.path.isfile(p):
+                        os.unlink(p)
+                        os.mkdir(p)
+                elif op == "chmod":
+                    for name, mode in (("tool", 0o644), ("sub/tool", 0o644), ("f", 0o755)):
+                        if os.path.isfile(os.path.join(base, name)):
+                            os.chmod(os.path.join(base, name), mode)
+                elif op == "missing":
+                    # a versioned file deleted behind the tree's back: commit records its removal
+                    for name in ("keep", "kept"):
+                        if os.path.isfile(os.path.join(base, name)):
+                            os.unlink(os.path.join(base, name))
+                            break
+                    else:
+                        raise KeyError(op)
+                elif op == "swap":
+                    d = "dir2" if os.path.isdir(os.path.join(base, "dir2")) else "sub"
+                    if os.path.isfile(os.path.join(base, d, "x")) and os.path.isfile(os.path.join(base, d, "y")):
+                        wt.rename_one(d + "/x", d + "/tmp")
+                        wt.rename_one(d + "/y", d + "/x")
+                        wt.rename_one(d + "/tmp", d + "/y")
+                done.append(op)
+            except (KeyboardInterrupt, SystemExit):
+                raise
+            except Exception as e:  # noqa  (an inapplicable op, e.g. the file was already removed)
+                done.append("%s!%s" % (op, type(e).__name__))
+        return done
+
+    def reset_tree(self):
+        """back to the basis tree's files, nothing unversioned left"""
+        from breezy.workingtree import WorkingTree
+        wt = self.wt = WorkingTree.open(self.wt.basedir)
+        wt.revert()
+        with wt.lock_read():
+            versioned = {p for p, ie in wt.iter_entries_by_dir()}
+        base = wt.basedir
+        for dirpath, dirnames, filenames in os.walk(base, topdown=False):
+            rel = os.path.relpath(dirpath, base)
+            if rel == ".bzr" or rel.startswith(".bzr" + os.sep):
+                continue
+            for n in filenames + dirnames:
+                r = n if rel == "." else rel + "/" + n
+                if r == ".bzr" or r in versioned:
+                    continue
+                p = os.path.join(dirpath, n)
+                if os.path.isdir(p) and not os.path.islink(p):
+                    shutil.rmtree(p, ignore_errors=True)
+                else:
+                    os.unlink(p)
+
     def run_roundtrip(self, c):
-        """commit in the state of c (with file edits), then uncommit that commit"""
+        """commit in the state of c (with pending changes of every kind), then uncommit that commit"""
         from breezy.uncommit import uncommit
         self.setup(c)
         wt = self.wt
@@ -274,37 +395,52 @@ class Scenario:
             with open(extra, "w") as f:
                 f.write("new file\n")
             wt.add([os.path.basename(extra)])
+        done = self.tree_ops(c.get("ops", []))
         before = self.observe()
         files_before = self.files()
         changes_before = self.changes()
         self.fresh += 1
         new = self.fresh
         err = None
+        local = bool(c.get("local"))
         try:
-            wt.commit("roundtrip", rev_id=b"c%d" % new)
+            wt.commit("roundtrip", rev_id=b"c%d" % new, local=local)
             mid = self.observe()
-            uncommit(wt.branch, tree=wt)
+            uncommit(wt.branch, tree=wt, local=local)
         except (KeyboardInterrupt, SystemExit):
             raise
         except BaseException as e:
             err = err_s(e)
             mid = None
         after = self.observe()
-        res = dict(before=before, mid=mid, err=err, after=after, new=new,
-                   files_same=files_before == self.files(), changes_same=changes_before == self.changes(),
-                   changes=changes_before)
+        files_after, changes_after = self.files(), self.changes()
+        res = dict(before=before, mid=mid, err=err, after=after, new=new, ops=done,
+                   files_same=files_before == files_after, changes_same=changes_before == changes_after,
+                   changes=changes_before, changes_before_full=changes_before, changes_after_full=changes_after,
+                   files_diff=sorted(k for k in set(files_before) | set(files_after) if files_before.get(k) != files_after.get(k)),
+                   changes_diff=[x for x in changes_after if x not in changes_before][:3]
+                   + [x for x in changes_before if x not in changes_after][:3])
         # leave the tree clean for the next case
-        if c["add"]:
-            wt.remove([os.path.basename(extra)], keep_files=False, force=True)
+        self.reset_tree()
         return res
 
     def files(self):
+        """every path below the tree root: kind, content / target, executable bit"""
         out = {}
-        for name in sorted(os.listdir(self.wt.basedir)):
-            p = os.path.join(self.wt.basedir, name)
-            if os.path.isfile(p):
-                with open(p, "rb") as f:
-                    out[name] = f.read()
+        base = self.wt.basedir
+        for dirpath, dirnames, filenames in os.walk(base):
+            if ".bzr" in dirnames:
+                dirnames.remove(".bzr")
+            for n in sorted(dirnames + filenames):
+                p = os.path.join(dirpath, n)
+                rel = os.path.relpath(p, base)
+                if os.path.islink(p):
+                    out[rel] = ("l", os.readlink(p))
+                elif os.path.isdir(p):
+                    out[rel] = ("d",)
+                else:
+                    with open(p, "rb") as f:
+                        out[rel] = ("f", f.read().decode("latin-1"), bool(os.stat(p).st_mode & 0o100))
         return out
 
     def changes(self):
@@ -315,7 +451,8 @@ class Scenario:
             with basis.lock_read():
                 out = []
                 for ch in wt.iter_changes(basis):
-                    out.append((ch.path, ch.changed_content, ch.versioned, ch.kind))
+                    out.append((list(ch.path), ch.changed_content, list(ch.versioned), list(ch.name), list(ch.kind),
+                                list(ch.executable)))
                 return sorted(out, key=repr)
 
     def close(self):
@@ -348,6 +485,11 @@ def gen_dag16(rng, n):
     return dag
 
 
+TREE_OPS = ["rename", "move", "rename-dir", "remove", "remove-keep", "mkdir", "kind", "kind-file-dir", "chmod", "swap",
+            "missing"]
+FAM_MISSING = "missing-file-unversioned-by-commit"
+
+
 def gen_cases(rng, dag):
     nodes = dag["order"]
     ghosts = sorted({p for ps in dag["parents"].values() for p in ps if p >= GH0})
@@ -370,7 +512,10 @@ def gen_cases(rng, dag):
                 local = rng.random() < 0.3
             elif r < 0.34:
                 local = True
-            cases.append(dict(f="unc", tip=T, d=d, p0=p0, tags=tags, keep=rng.random() < 0.25,
+            # mostly uncommit with the tree; some with tree=None (branch only) and some as a dry run
+            r2 = rng.random()
+            f = "unc" if r2 < 0.72 else ("unt" if r2 < 0.88 else "und")
+            cases.append(dict(f=f, tip=T, d=d, p0=p0, tags=tags, keep=rng.random() < 0.25,
                               master=master, local=local))
     # excluded inputs (the command refuses them before calling uncommit): revno outside 1..revno(T).
     # The real code is run and its behaviour counted; nothing is compared.
@@ -382,8 +527,14 @@ def gen_cases(rng, dag):
         T = rng.choice(nodes)
         p0 = [] if rng.random() < 0.4 else [p for p in rng.sample(pool, min(len(pool), rng.randint(1, 2))) if p != T]
         tags = {k + 1: rng.choice(pool) for k in range(rng.randint(0, 2))}
-        master = dict(tip=T, tags=dict(tags)) if rng.random() < 0.3 else None
-        cases.append(dict(f="cu", tip=T, p0=p0, tags=tags, master=master,
+        master = dict(tip=T, tags=dict(tags)) if rng.random() < 0.4 else None
+        local = False
+        if master is not None and rng.random() < 0.5:
+            # commit --local / uncommit --local: the master may be anywhere and is not touched
+            local = True
+            master = dict(tip=T if rng.random() < 0.5 else rng.choice(nodes), tags=dict(tags))
+        ops = rng.sample(TREE_OPS, rng.randint(0, 4))
+        cases.append(dict(f="cu", tip=T, p0=p0, tags=tags, master=master, local=local, ops=ops,
                           edit="edited %d\n" % rng.randint(0, 99), add=rng.random() < 0.4))
     return cases
 
@@ -395,9 +546,9 @@ def _worker(job):
     out = [dag]
     try:
         for c in cases:
-            if c["f"] == "unc":
+            if c["f"] in ("unc", "unt", "und"):
                 before, err, after = sc.run_uncommit(c)
-                ref = ref_uncommit(dag, c["tip"], c["d"], before["parents"][1:])
+                ref = ref_for(dag, c, before)
                 gobs = None
                 if ref is not None:
                     gobs = sc.graph_obs(c["tip"], ref[1], ref[1])
@@ -414,16 +565,35 @@ def _worker(job):
 # ---------------------------------------------------------------------------
 # oracle
 
-def expected_gone(dag, c, before):
-    """names of the branch's tags that sit on removed revisions (None: walk meets a ghost)"""
-    ref = ref_uncommit(dag, c["tip"], c["d"], before["parents"][1:])
+def ref_for(dag, c, before):
+    """(new tip, new parents) the reference expects for the case (None: the walk meets a ghost); with
+    tree=None nothing is re-recorded: the only 'parent' the tags are judged against is the new tip"""
+    if c["f"] == "unt":
+        ref = ref_uncommit(dag, c["tip"], c["d"], [])
+        return None if ref is None else (ref[0], ref[1][:1])
+    return ref_uncommit(dag, c["tip"], c["d"], before["parents"][1:])
+
+
+def removed_revs(dag, c, before):
+    """the revisions that leave the history: ancestors of the old tip and of none of the new parents"""
+    ref = ref_for(dag, c, before)
     if ref is None:
         return None
-    parents = ref[1]
     uniq = G.ref_anc(dag, c["tip"])
-    for p in parents:
+    for p in ref[1]:
         uniq = uniq - G.ref_anc(dag, p)
+    return uniq
+
+
+def expected_gone(dag, c, before):
+    """names of the branch's tags that sit on removed revisions (None: walk meets a ghost)"""
+    uniq = removed_revs(dag, c, before)
+    if uniq is None:
+        return None
     return set() if c["keep"] else {k for k, v in before["tags"].items() if v in uniq}
+
+
+FAM_MASTER_TAGS = "unsynced-master-tags-removed-by-name"
 
 
 def oracle_uncommit(dag, c, before, err, after, sink):
@@ -439,11 +609,19 @@ def oracle_uncommit(dag, c, before, err, after, sink):
         if err.startswith("E:other") or err == "E:Panic":
             sink("unexpected exception %s" % err, None)
         return
-    ref = ref_uncommit(dag, c["tip"], c["d"], before["parents"][1:])
+    ref = ref_for(dag, c, before)
     if ref is None:
         sink("uncommit walked into a ghost without raising", None)
         return
+    if c["f"] == "und":
+        if after != before:
+            sink("dry_run=True changed the state: %r -> %r" % (before, after), None)
+        return
     new_tip, parents = ref
+    if c["f"] == "unt":
+        # no tree was given: its parent list must be untouched; tip, revno and tags as below
+        if after["parents"] != before["parents"]:
+            sink("uncommit(tree=None) changed the tree's parents %s -> %s" % (before["parents"], after["parents"]), None)
     if after["tip"] != new_tip:
         sink("tip is %s, the %d-th left-hand ancestor of %s is %s" % (tip_s(after["tip"]), c["d"], c["tip"], tip_s(new_tip)), None)
     if after["revno"] != before["revno"] - c["d"]:
@@ -452,11 +630,12 @@ def oracle_uncommit(dag, c, before, err, after, sink):
     if lh is not None and G.ref_lh(dag, c["tip"]) is not None and after["revno"] != len(lh):
         sink("revno %d but the tip's left-hand history has length %d" % (after["revno"], len(lh)), None)
     # tree parents
-    if after["parents"][:1] != ([after["tip"]] if after["tip"] is not None else []):
-        sink("tree basis %s differs from branch tip %s" % (after["parents"][:1], tip_s(after["tip"])), None)
-    if after["parents"] != ref_filter(dag, parents):
-        sink("tree parents %s, expected %s (removed merges, older revision first, then previous pending merges)"
-             % (after["parents"], ref_filter(dag, parents)), None)
+    if c["f"] == "unc":
+        if after["parents"][:1] != ([after["tip"]] if after["tip"] is not None else []):
+            sink("tree basis %s differs from branch tip %s" % (after["parents"][:1], tip_s(after["tip"])), None)
+        if after["parents"] != ref_filter(dag, parents):
+            sink("tree parents %s, expected %s (removed merges, older revision first, then previous pending merges)"
+                 % (after["parents"], ref_filter(dag, parents)), None)
     # tags
     gone = expected_gone(dag, c, before)
     exp = {k: v for k, v in before["tags"].items() if k not in gone}
@@ -476,12 +655,22 @@ def oracle_uncommit(dag, c, before, err, after, sink):
         else:
             if (m1["tip"], m1["revno"]) != (after["tip"], after["revno"]):
                 sink("master is at %s/%d, branch at %s/%d" % (tip_s(m1["tip"]), m1["revno"], tip_s(after["tip"]), after["revno"]), None)
-            # a master tag goes iff the same name was removed locally (its revision was removed there too
-            # when both tag dicts agree)
-            expm = {k: v for k, v in m0["tags"].items() if k not in gone}
+            # the property, for the master's own tags: a tag goes iff keep_tags is off and its revision left the
+            # history (the master's history is the branch's).  The code computes the removal from the BOUND
+            # BRANCH's tags and applies it to the master by name: when the two tag dicts disagree a master tag on
+            # a kept revision is deleted and a master tag on a removed revision stays.
+            uniq = removed_revs(dag, c, before)
+            expm = {k: v for k, v in m0["tags"].items() if c["keep"] or v not in uniq}
+            by_name = {k: v for k, v in m0["tags"].items() if k not in gone}
             if m1["tags"] != expm:
-                if all(before["tags"].get(k) == v for k, v in m0["tags"].items() if k in gone):
-                    sink("master tags %s, expected %s" % (m1["tags"], expm), None)
+                fam = None
+                if m1["tags"] == by_name and any(before["tags"].get(k) != v for k, v in m0["tags"].items()):
+                    fam = FAM_MASTER_TAGS
+                wrongly_gone = {k: v for k, v in expm.items() if k not in m1["tags"]}
+                wrongly_kept = {k: v for k, v in m1["tags"].items() if k not in expm}
+                sink("master tags after uncommit %s, expected %s: deleted although their revision stays %s, kept "
+                     "although their revision was removed %s (bound branch's tags: %s, removed revisions: %s)"
+                     % (m1["tags"], expm, wrongly_gone, wrongly_kept, before["tags"], sorted(uniq)), fam)
 
 
 def oracle_roundtrip(c, res, sink):
@@ -500,9 +689,22 @@ def oracle_roundtrip(c, res, sink):
     if a["master"] != b["master"]:
         sink("master state changed by commit+uncommit: %s -> %s" % (b["master"], a["master"]), None)
     if not res["files_same"]:
-        sink("working tree files changed by commit+uncommit", None)
+        sink("working tree files changed by commit+uncommit: %s (tree operations before the commit: %s)"
+             % (res.get("files_diff"), res.get("ops")), None)
     if not res["changes_same"]:
-        sink("the tree reports different changes after commit+uncommit", None)
+        # a versioned file that was missing from disk: commit drops it from the working inventory, so afterwards
+        # it is reported as unversioned instead of missing — everything else must be identical
+        fam = None
+        cb, ca = res.get("changes_before_full"), res.get("changes_after_full")
+        if "missing" in (res.get("ops") or []) and cb is not None:
+            norm = lambda l: sorted(  # noqa: E731
+                (repr(x) for x in l if not (x[4][1] is None and x[2][0] is True)))
+            was_missing = [x for x in cb if x[4][1] is None and x[2] == [True, True]]
+            now = [x for x in ca if x[4][1] is None and x[2] == [True, False] and x[0][0] in [y[0][0] for y in was_missing]]
+            if was_missing and len(now) == len(was_missing) and norm(cb) == norm(ca) and res["files_same"]:
+                fam = FAM_MISSING
+        sink("the tree reports different changes after commit+uncommit: %s (tree operations before the commit: %s)"
+             % (res.get("changes_diff"), res.get("ops")), fam)
 
 
 # ---------------------------------------------------------------------------
@@ -525,24 +727,24 @@ def run(ctx, ndags=None, maxn=None):
         for c, r in zip(cs, res):
             case = dict(g=genc, **c)
             sink = lambda what, fam, case=case: ctx.violation(case, what, family=fam)  # noqa: E731
-            if c["f"] == "unc":
+            if c["f"] in ("unc", "unt", "und"):
                 before, err, after = r["before"], r["err"], r["after"]
                 removed_merge = any(len(dag["parents"].get(x, [])) > 1
                                     for x in G.ref_lh_stop_at_ghost(dag, c["tip"])[:c["d"]])
                 ctx.case(case, nontrivial=bool(removed_merge or before["parents"][1:] or c["tags"] or c["master"]))
                 ctx.count("unc depth:%d" % c["d"])
-                ctx.count("unc outcome:%s" % (err or "ok"))
+                ctx.count("%s outcome:%s" % (c["f"], err or "ok"))
                 ctx.count("unc bound:%s local:%s keep:%s" % ("T" if c["master"] else "F", "T" if c["local"] else "F",
                                                              "T" if c["keep"] else "F"))
                 if removed_merge:
                     ctx.count("unc removes-merge")
                 oracle_uncommit(dag, c, before, err, after, sink)
                 cases.append(case)
-                lines.append("unc %s %s %d %s %s" % (genc, st_line(before), c["d"], "T" if c["keep"] else "F",
-                                                     "T" if c["local"] else "F"))
+                lines.append("%s %s %s %d %s %s" % (c["f"], genc, st_line(before), c["d"], "T" if c["keep"] else "F",
+                                                    "T" if c["local"] else "F"))
                 outs.append(err if err is not None else "ok " + st_line(after))
                 if r["gobs"] is not None:
-                    ref = ref_uncommit(dag, c["tip"], c["d"], before["parents"][1:])
+                    ref = ref_for(dag, c, before)
                     fua, hs = r["gobs"]
                     gcase = dict(f="graph", g=genc, tip=c["tip"], parents=ref[1])
                     cases += [gcase, gcase]
@@ -560,12 +762,15 @@ def run(ctx, ndags=None, maxn=None):
                     r["after"]["revno"] - r["before"]["revno"]))
             else:
                 ctx.case(case, nontrivial=True)
-                ctx.count("roundtrip bound:%s pending:%d add:%s" % ("T" if c["master"] else "F", len(r["before"]["parents"]) - 1,
-                                                                    "T" if c["add"] else "F"))
-                ctx.count("roundtrip changes:%d" % len(r["changes"]))
+                ctx.count("roundtrip bound:%s local:%s pending:%d add:%s" % (
+                    "T" if c["master"] else "F", "T" if c.get("local") else "F", len(r["before"]["parents"]) - 1,
+                    "T" if c["add"] else "F"))
+                ctx.count("roundtrip changes:%d" % min(len(r["changes"]), 9))
+                for o in r.get("ops", []):
+                    ctx.count("roundtrip op:%s" % (o if "!" not in o else o.split("!")[0] + " (not applicable)"))
                 oracle_roundtrip(c, r, sink)
                 cases.append(case)
-                lines.append("cu %s %s %d" % (genc, st_line(r["before"]), r["new"]))
+                lines.append("%s %s %s %d" % ("cul" if c.get("local") else "cu", genc, st_line(r["before"]), r["new"]))
                 outs.append(r["err"] if r["err"] is not None else "ok " + st_line(r["after"]))
     ctx.diff(cases, lines, outs)
     ctx.extra["dags"] = dict(n=ndags, max_revisions=maxn)
@@ -596,16 +801,16 @@ def replay(ctx, case):
             c["master"]["tags"] = {int(k): v for k, v in c["master"]["tags"].items()}
         if case["f"] == "excluded":
             return dict(case=case, impl=sc.run_excluded(c), model="(excluded input: not modelled)")
-        if case["f"] == "unc":
+        if case["f"] in ("unc", "unt", "und"):
             before, err, after = sc.run_uncommit(c)
             oracle_uncommit(dag, c, before, err, after, lambda what, fam: viol.append((what, fam)))
-            line = "unc %s %s %d %s %s" % (case["g"], st_line(before), c["d"], "T" if c["keep"] else "F",
-                                           "T" if c["local"] else "F")
+            line = "%s %s %s %d %s %s" % (case["f"], case["g"], st_line(before), c["d"], "T" if c["keep"] else "F",
+                                          "T" if c["local"] else "F")
             impl = err if err is not None else "ok " + st_line(after)
         else:
             r = sc.run_roundtrip(c)
             oracle_roundtrip(c, r, lambda what, fam: viol.append((what, fam)))
-            line = "cu %s %s %d" % (case["g"], st_line(r["before"]), r["new"])
+            line = "%s %s %s %d" % ("cul" if c.get("local") else "cu", case["g"], st_line(r["before"]), r["new"])
             impl = r["err"] if r["err"] is not None else "ok " + st_line(r["after"])
         for what, fam in viol:
             ctx.violation(case, what, family=fam)
